@@ -657,6 +657,17 @@ func c19WalkCase(ctx *Ctx, v cty.Value) []c19Visit {
 		setStep := hasSetStep(v, e.p)
 		ctx.Eval("leadback "+vw+" "+pk, len(e.p) > 0 && !setStep)
 		if setStep {
+			// d19b (C19.walk_paths_through_sets_do_not_apply): a reported path that passes through a set does
+			// not apply: Path.Apply answers with an error, it neither panics nor returns some other member
+			ctx.Tag("apply:visited-through-set")
+			ctx.Eval("setpath "+vw+" "+pk, true)
+			if pan || err == nil {
+				sig := "applies"
+				if pan {
+					sig = "panic"
+				}
+				ctx.Fail(Failure{Site: "walk-set-path", Sig: sig, What: "a visited path that passes through a set did not answer with an error", Input: vw + " " + pk, GoLit: lit + " ; " + pathLit(e.p), Outcome: impl})
+			}
 			continue
 		}
 		if pan || err != nil {
@@ -892,8 +903,15 @@ func c19TransformCase(ctx *Ctx, v cty.Value, wlog []c19Visit) {
 			repl = cty.UnknownVal(ty)
 		}
 		rule := c19Rule{at: encPath(tgt.p), act: "ret", val: repl}
-		log, _, res, outcome := transformReal(v, "full", []c19Rule{rule}, nil)
+		// d19b: through emit, so that the run is a `walk.trans` correspondence case as well (the model's Enter path:
+		// C19.transform_enter_replace is about Walk.transformWith with this very transformer)
+		res, outcome, log := emit("full", []c19Rule{rule}, nil)
 		ctx.Eval("tenter "+vw+" "+rule.enc(), true)
+		if tu.IsNull() || !tu.IsKnown() {
+			ctx.Tag("tenter:leaf-to-container")
+		} else {
+			ctx.Tag("tenter:container-to-leaf")
+		}
 		ctx.Tag("transform:enter-replace")
 		glit := lit + " ; Enter " + rule.lit()
 		if !strings.HasPrefix(outcome, "ok ") {
@@ -1340,4 +1358,5 @@ func runC19(ctx *Ctx) {
 	}
 	runC19PathSet(ctx)
 	runC19D19(ctx)
+	runC19D19b(ctx)
 }
